@@ -282,6 +282,7 @@ func TestRandom(t *testing.T) {
 	steps := common.EnvInt("VERIF_STEPS", 30)
 	tr := common.NewTrace("trace.ndjson")
 	defer tr.Close()
+	defer startWatchdog(tr)()
 	total := 0
 	for i := 0; i < traces; i++ {
 		rng := common.Rand(int64(i))
@@ -310,6 +311,7 @@ func TestEnumerate(t *testing.T) {
 	depth := common.EnvInt("VERIF_DEPTH", 3)
 	tr := common.NewTrace("trace.ndjson")
 	defer tr.Close()
+	defer startWatchdog(tr)()
 	lv := level{enum: true, maxFds: 2, maxLinks: 2}
 	rng := rand.New(rand.NewSource(1)) // parameters are fixed at this level
 	leaves, nodes := 0, 0
@@ -676,6 +678,7 @@ var scenarios = []scenario{
 func TestScenarios(t *testing.T) {
 	tr := common.NewTrace("trace.ndjson")
 	defer tr.Close()
+	defer startWatchdog(tr)()
 	only := os.Getenv("VERIF_SCENARIO")
 	n := 0
 	for _, scn := range scenarios {
@@ -697,6 +700,7 @@ func TestScenarios(t *testing.T) {
 func TestDeadDataOps(t *testing.T) {
 	tr := common.NewTrace("trace.ndjson")
 	defer tr.Close()
+	defer startWatchdog(tr)()
 	n := 0
 	for _, kind := range []string{"setsize", "allocate"} {
 		for _, a := range []int{0, 3} { // fuse + leaf, nfs + build directory
